@@ -9,16 +9,26 @@ of a whole history `run_eq_spec` (induction over the step list: signing calls in
 deletions and re-creations, any length), `model_holds`, and the readable corollaries
 `signs_resolved_plus_metadata`, `refusals`, `frame` / `frame_heap`, `idempotent_history`,
 `signs_what_the_tag_names_now`, `deleted_tag_is_not_signed`, `success_independent_of_history`,
-`pushed_annotations_exact`, `merge_order_irrelevant`.
+`pushed_annotations_exact`, `merge_order_irrelevant`; at the end, `namespace Tie`: the ties to the translated source
+(`Generated/SrcC11.lean`): `source_addUserMetadataToDescriptor_refines_model`, `source_validateSignArguments_refines_model`,
+`source_validateSigMediaType_refines_model`, `source_generateAnnotations_refines_model` (+ `_matches_model`).
 Well-formedness hypothesis (explicit, decidable, checked by the driver for every case): `wf i` - there is at least
 one artifact, the tag and every step name existing artifacts, and the keys of every UserMetadata map are pairwise
 different (true of any Go map; the harness builds the lists from Go maps).
 -/
 import NotationModel.Model.C11
+import NotationModel.Generated.SrcC11
 set_option linter.unusedSimpArgs false
 namespace NotationModel.C11
 
 theorem facts_merge_allocates_fresh_map : mergeCopies = true := by decide
+
+/-- the table the Go code tests against is exactly the prefix the property names -/
+theorem facts_reserved_prefixes : Facts.c11ReservedPrefixes = [reservedPrefix] := by decide
+
+/-- so what the code refuses as reserved is what the property calls reserved -/
+theorem isReserved_eq_spec (k : Text) : isReserved k = isReservedSpec k := by
+  simp [isReserved, isReservedSpec, facts_reserved_prefixes]
 
 theorem look_put (k v k' : Text) : ∀ m : AnnMap, look k' (put k v m) = if k' = k then some v else look k' m := by
   intro m
@@ -416,7 +426,7 @@ theorem signOCI_spec (i : Input) (w : World) (c : Step) (hinv : Inv i w) (hn : 0
         have hinv2 : Inv i { heap := h2, tag := w.tag, handed := w.handed ++ [(resolved, h1.read resolved)], sigs := w.sigs } :=
           Inv_ext hinv1 hp2 _
         have hrefused : refused i c k = !ok := by
-          simp [refused, digestMismatch, hne, hasReserved, collides_eq, hok]
+          simp [refused, digestMismatch, hne, hasReserved, collides_eq, hok, isReserved_eq_spec]
         cases hokv : ok with
         | false =>
           simp only [Bool.not_false, if_true]
@@ -1045,9 +1055,6 @@ theorem merge_order_irrelevant (h : Heap) (ann : MapRef) (md md' : AnnMap) (hv :
 
 /-! ### the ties to the Go source (regenerated on every run) -/
 
-theorem facts_reserved_prefixes :
-    Facts.c11ReservedPrefixes = [['i', 'o', '.', 'c', 'n', 'c', 'f', '.', 'n', 'o', 't', 'a', 'r', 'y']] := by decide
-
 /-- the signer gets the merged descriptor, the push gets the one `Resolve` returned, and they are different variables -/
 theorem facts_dataflow :
     Facts.c11MergeInput = Facts.c11ResolveVar ∧ Facts.c11SignerDescArg = Facts.c11MergeOutput ∧
@@ -1130,5 +1137,602 @@ example : (clauses (exInput [exSign .tag [], exTagTo 1, exSign .tag []])
         pushAnn := some (expectedPushAnn (exInput [])), returned := .resolved,
         repoViewSame := true, handedSame := true, optsSame := true, sigCounts := [2, 0] }] }).failed =
     ["signs_resolved_plus_metadata", "subject_is_resolved_descriptor", "one_signature_per_push"] := by decide
+
+/-! ### tie to the translated source (`Generated/SrcC11.lean`, re-translated from notation.go on every run) -/
+
+namespace Tie
+open NotationModel.Src NotationModel.Src.«notation»
+
+/-! #### `validateSigMediaType`, `validateSignArguments` -/
+
+/-- TIE (translated source): `validateSigMediaType` accepts exactly the two envelope media types. -/
+theorem source_validateSigMediaType_refines_model (mt : String) :
+    (validateSigMediaType mt).isNone = (mt == jws.MediaTypeEnvelope || mt == cose.MediaTypeEnvelope) := by
+  unfold validateSigMediaType
+  simp only [Id.run]
+  have hjc : (jws.MediaTypeEnvelope == cose.MediaTypeEnvelope) = false ∧ (cose.MediaTypeEnvelope == jws.MediaTypeEnvelope) = false := by decide
+  by_cases h1 : mt = jws.MediaTypeEnvelope
+  · subst h1
+    simp [GoLite.idPure, hjc.1, hjc.2] <;> (try rfl)
+  · have a1 : (mt == jws.MediaTypeEnvelope) = false := by simpa using h1
+    have a2 : (jws.MediaTypeEnvelope == mt) = false := by simpa using (fun e => h1 e.symm : ¬ jws.MediaTypeEnvelope = mt)
+    by_cases h2 : mt = cose.MediaTypeEnvelope
+    · subst h2
+      simp [GoLite.idPure, hjc.1, hjc.2] <;> (try rfl)
+    · have b1 : (mt == cose.MediaTypeEnvelope) = false := by simpa using h2
+      have b2 : (cose.MediaTypeEnvelope == mt) = false := by simpa using (fun e => h2 e.symm : ¬ cose.MediaTypeEnvelope = mt)
+      have c1 : (mt != jws.MediaTypeEnvelope) = true := by simp [bne, a1]
+      have c2 : (mt != cose.MediaTypeEnvelope) = true := by simp [bne, b1]
+      simp [GoLite.idPure, a1, a2, b1, b2, c1, c2, h1, h2] <;> (try rfl)
+
+/-- what `validateSignArguments` demands, written out -/
+def argsValid (signer : Option Signer) (o : SignerSignOptions) : Bool :=
+  signer.isSome && decide (0 ≤ o.ExpiryDuration) && decide (Int.tmod o.ExpiryDuration time.Second = 0) &&
+  (o.SignatureMediaType == jws.MediaTypeEnvelope || o.SignatureMediaType == cose.MediaTypeEnvelope)
+
+/-- TIE (translated source): for EVERY signer value and options, `validateSignArguments` returns no error exactly
+when the signer is not nil, the expiry is a non-negative whole number of seconds and the media type is one of the two
+envelope types (the separate test for the empty media type is subsumed). -/
+theorem source_validateSignArguments_refines_model (signer : Option Signer) (o : SignerSignOptions) :
+    (validateSignArguments signer o).isNone = argsValid signer o := by
+  have hm := source_validateSigMediaType_refines_model o.SignatureMediaType
+  unfold validateSignArguments argsValid
+  simp only [Id.run]
+  have hje : (jws.MediaTypeEnvelope == "") = false ∧ (cose.MediaTypeEnvelope == "") = false ∧
+      ("" == jws.MediaTypeEnvelope) = false ∧ ("" == cose.MediaTypeEnvelope) = false := by decide
+  -- every combination of the five tests, in whatever order the source makes them
+  cases signer <;>
+  by_cases h1 : o.ExpiryDuration < 0 <;>
+  by_cases h2 : Int.tmod o.ExpiryDuration time.Second = 0 <;>
+  by_cases h3 : o.SignatureMediaType = "" <;>
+  cases hv : validateSigMediaType o.SignatureMediaType <;>
+  (rw [hv] at hm
+   have h1' : (0 ≤ o.ExpiryDuration) = ¬ (o.ExpiryDuration < 0) := by simp
+   have h3' : ("" == o.SignatureMediaType) = (o.SignatureMediaType == "") := by
+     rw [Bool.eq_iff_iff]; constructor <;> (intro h; simp at h ⊢; first | exact h | exact h.symm)
+   simp [h1, h1', h2, h3, h3', hv, GoLite.idPure, GoLite.idBind, ← hm, hje.1, hje.2.1, hje.2.2.1, hje.2.2.2] <;>
+     (try rfl) <;> (try (simp [h3, hje.1, hje.2.1, hje.2.2.1, hje.2.2.2] at hm)))
+
+/-- the option scenarios of the model, made concrete -/
+def optsOf : Opts → Option Signer × SignerSignOptions
+  | .jws => (some {}, { SignatureMediaType := jws.MediaTypeEnvelope, ExpiryDuration := 0 })
+  | .cose => (some {}, { SignatureMediaType := cose.MediaTypeEnvelope, ExpiryDuration := 24 * 3600 * time.Second })
+  | .nilSigner => (none, { SignatureMediaType := jws.MediaTypeEnvelope, ExpiryDuration := 0 })
+  | .nilRepo => (some {}, { SignatureMediaType := jws.MediaTypeEnvelope, ExpiryDuration := 0 })
+  | .negativeExpiry => (some {}, { SignatureMediaType := jws.MediaTypeEnvelope, ExpiryDuration := -time.Second })
+  | .subSecondExpiry => (some {}, { SignatureMediaType := jws.MediaTypeEnvelope, ExpiryDuration := 1500000000 })
+  | .emptyMediaType => (some {}, { SignatureMediaType := "", ExpiryDuration := 0 })
+  | .unsupportedMediaType => (some {}, { SignatureMediaType := "application/pkcs7-signature", ExpiryDuration := 0 })
+
+/-- the model's `optsValid` is the translated `validateSignArguments` on each scenario (`nilRepo` is the one check
+`SignOCI` makes itself, after `validateSignArguments` has passed) -/
+theorem source_validateSignArguments_on_scenarios (o : Opts) (h : o ≠ .nilRepo) :
+    (validateSignArguments (optsOf o).1 (optsOf o).2).isNone = optsValid o := by
+  rw [source_validateSignArguments_refines_model]
+  cases o <;> first | (exfalso; exact h rfl) | decide
+
+example : validateSignArguments (some {}) { SignatureMediaType := "application/cose", ExpiryDuration := 1500000000 } =
+    some (GoLite.errorf "") := by decide
+
+end Tie
+
+namespace Tie
+open NotationModel.Src NotationModel.Src.«notation»
+
+/-! #### `addUserMetadataToDescriptor` -/
+
+abbrev SMap := GoLite.Map String String
+
+/-- the keys of an association list are pairwise different (true of every Go map, in every iteration order) -/
+def keysNodup (m : SMap) : Prop := (m.map (·.1)).Nodup
+
+def hasKey (m : SMap) (k : String) : Bool := m.any (fun p => p.1 == k)
+
+theorem lookup_snd (m : SMap) (k : String) : (GoLite.Map.lookup m k).2 = hasKey m k := by
+  unfold GoLite.Map.lookup GoLite.Map.get? hasKey
+  induction m with
+  | nil => simp
+  | cons p m ih =>
+    by_cases h : (p.1 == k) = true
+    · simp [List.find?, h]
+    · have h' : (p.1 == k) = false := by simpa using h
+      simp only [List.find?, h', List.any_cons, Bool.false_or]
+      exact ih
+
+theorem set_new (m : SMap) (k v : String) (h : hasKey m k = false) : GoLite.Map.set m k v = m ++ [(k, v)] := by
+  unfold GoLite.Map.set
+  unfold hasKey at h
+  simp [h]
+
+theorem hasKey_append (m n : SMap) (k : String) : hasKey (m ++ n) k = (hasKey m k || hasKey n k) := by
+  simp [hasKey]
+
+/-- `for k, v := range m { fresh[k] = v }` into an empty map copies `m` (same order, even) -/
+theorem copy_eq : ∀ (m acc : SMap), keysNodup m → (∀ p ∈ m, hasKey acc p.1 = false) →
+    m.foldl (fun b a => GoLite.Map.set b a.1 a.2) acc = acc ++ m := by
+  intro m
+  induction m with
+  | nil => intro acc _ _; simp
+  | cons p m ih =>
+    intro acc hn hd
+    have hp : hasKey acc p.1 = false := hd p (by simp)
+    simp only [List.foldl, set_new acc p.1 p.2 hp]
+    have hn' : keysNodup m := by
+      unfold keysNodup at hn ⊢
+      simp only [List.map_cons, List.nodup_cons] at hn
+      exact hn.2
+    rw [ih (acc ++ [(p.1, p.2)]) hn']
+    · simp
+    · intro q hq
+      rw [hasKey_append, hd q (by simp [hq])]
+      have hne : ¬ p.1 = q.1 := by
+        unfold keysNodup at hn
+        simp only [List.map_cons, List.nodup_cons, List.mem_map, not_exists, not_and] at hn
+        exact fun e => hn.1 q hq e.symm
+      simp [hasKey, hne]
+
+theorem any_congr_mem {α : Type} {f g : α → Bool} : ∀ {l : List α}, (∀ x ∈ l, f x = g x) → l.any f = l.any g := by
+  intro l
+  induction l with
+  | nil => intro _; rfl
+  | cons a l ih =>
+    intro h
+    simp only [List.any_cons, h a (by simp), ih (fun x hx => h x (by simp [hx]))]
+
+/-- is `k` refused as reserved by the translated table? -/
+def srcReserved (k : String) : Bool := reservedAnnotationPrefixes.any (fun p => strings.HasPrefix k p)
+
+/-- one round of the merge loop on (the function's view of the annotations, the caller's map) -/
+def srcStep (aliased : Bool) (t : SMap × SMap) (kv : String × String) : Except Unit (SMap × SMap) :=
+  if srcReserved kv.1 then .error ()
+  else if hasKey t.1 kv.1 then .error ()
+  else .ok (GoLite.Map.set t.1 kv.1 kv.2, if aliased then GoLite.Map.set t.2 kv.1 kv.2 else t.2)
+
+/-- a search loop with an early `return`: generic shape of `for _, x := range xs { if p(x) { return r } }` -/
+theorem forIn_anyReturn {α R : Type} (xs : List α) (p : α → Bool) (r : α → R) :
+    (forIn xs ((none : Option R), ()) (fun x _ => if p x = true then (pure (ForInStep.done (some (r x), ())) : Id _)
+      else pure (ForInStep.yield (none, ())))) = pure ((xs.find? p).map r, ()) := by
+  induction xs with
+  | nil => simp
+  | cons x xs ih =>
+    rw [List.forIn_cons]
+    by_cases hp : p x = true
+    · simp [hp]
+    · have hp' : p x = false := by simpa using hp
+      simp only [hp', Bool.false_eq_true, if_false, pure_bind, ih, List.find?_cons_of_neg (by simpa using hp)]
+
+/-- the merge loop when the function works on a map of its own: the caller's map is never touched, the loop fails
+exactly on a reserved or already present key, and otherwise appends the metadata -/
+theorem foldE_own : ∀ (md : SMap) (t : SMap × SMap), keysNodup md →
+    match GoLite.foldE (srcStep false) md t with
+    | .ok t' => t'.2 = t.2 ∧ t'.1 = t.1 ++ md ∧ md.any (fun kv => srcReserved kv.1) = false ∧
+        md.any (fun kv => hasKey t.1 kv.1) = false
+    | .error (t', _) => t'.2 = t.2 ∧ (md.any (fun kv => srcReserved kv.1) || md.any (fun kv => hasKey t.1 kv.1)) = true := by
+  intro md
+  induction md with
+  | nil => intro t _; simp [GoLite.foldE]
+  | cons kv md ih =>
+    intro t hn
+    have hn' : keysNodup md := by
+      unfold keysNodup at hn ⊢
+      simp only [List.map_cons, List.nodup_cons] at hn
+      exact hn.2
+    have hfresh : ∀ q ∈ md, ¬ kv.1 = q.1 := by
+      intro q hq
+      unfold keysNodup at hn
+      simp only [List.map_cons, List.nodup_cons, List.mem_map, not_exists, not_and] at hn
+      exact fun e => hn.1 q hq e.symm
+    simp only [GoLite.foldE, srcStep]
+    by_cases hr : srcReserved kv.1 = true
+    · simp [hr]
+    · have hr' : srcReserved kv.1 = false := by simpa using hr
+      by_cases hk : hasKey t.1 kv.1 = true
+      · simp [hr', hk]
+      · have hk' : hasKey t.1 kv.1 = false := by simpa using hk
+        simp only [hr', hk', Bool.false_eq_true, if_false]
+        have := ih (GoLite.Map.set t.1 kv.1 kv.2, t.2) hn'
+        rw [set_new _ _ _ hk'] at this ⊢
+        have hsame : md.any (fun q => hasKey (t.1 ++ [(kv.1, kv.2)]) q.1) = md.any (fun q => hasKey t.1 q.1) := by
+          apply any_congr_mem
+          intro q hq
+          rw [hasKey_append]
+          have := hfresh q hq
+          simp [hasKey, this]
+        cases hres : GoLite.foldE (srcStep false) md (t.1 ++ [(kv.1, kv.2)], t.2) with
+        | ok t' =>
+          rw [hres] at this
+          simp only [] at this ⊢
+          obtain ⟨h1, h2, h3, h4⟩ := this
+          refine ⟨h1, by rw [h2]; simp, by simp [hr', h3], ?_⟩
+          rw [hsame] at h4
+          simp [hk', h4]
+        | error e =>
+          obtain ⟨t', u⟩ := e
+          rw [hres] at this
+          simp only [] at this ⊢
+          obtain ⟨h1, h2⟩ := this
+          rw [hsame] at h2
+          refine ⟨h1, ?_⟩
+          simp only [List.any_cons, hr', hk', Bool.false_or]
+          exact h2
+
+end Tie
+
+namespace Tie
+open NotationModel.Src NotationModel.Src.«notation»
+
+theorem srcReserved_find (k : String) :
+    srcReserved k = (reservedAnnotationPrefixes.find? (fun p => strings.HasPrefix k p)).isSome := by
+  unfold srcReserved
+  rw [Bool.eq_iff_iff]
+  simp [List.find?_isSome, List.any_eq_true]
+
+/-- the loop state of the merge loop seen from `srcStep`: no early result yet, the descriptor with the annotations
+built so far, the caller's map -/
+abbrev absSt (desc : ocispec.Descriptor) (t : SMap × SMap) :
+    Option (ocispec.Descriptor × Option GoLite.Err × SMap) × ocispec.Descriptor × SMap :=
+  (none, { desc with Annotations := t.1 }, t.2)
+abbrev stopSt (desc : ocispec.Descriptor) (t : SMap × SMap) (_e : Unit) :
+    Option (ocispec.Descriptor × Option GoLite.Err × SMap) × ocispec.Descriptor × SMap :=
+  (some ({ desc with Annotations := t.1 }, some (GoLite.errorf ""), t.2), { desc with Annotations := t.1 }, t.2)
+
+/-- what the translated `addUserMetadataToDescriptor` computes, for every descriptor and every metadata map in
+every iteration order: (1) the CALLER's annotation map comes back exactly as it went in - also when the call is
+refused half-way; (2) the call is refused exactly when a key is reserved or already an annotation;
+(3) otherwise the result is the same descriptor with annotations = old annotations ++ metadata. -/
+theorem source_addUserMetadataToDescriptor_spec (desc : ocispec.Descriptor) (md : SMap)
+    (hd : keysNodup md) (ha : keysNodup desc.Annotations) :
+    (addUserMetadataToDescriptor desc md).2.2 = desc.Annotations ∧
+    (addUserMetadataToDescriptor desc md).2.1.isSome =
+      (md.any (fun kv => srcReserved kv.1) || md.any (fun kv => hasKey desc.Annotations kv.1)) ∧
+    ((addUserMetadataToDescriptor desc md).2.1 = none →
+      (addUserMetadataToDescriptor desc md).1 = { desc with Annotations := desc.Annotations ++ md }) := by
+  unfold addUserMetadataToDescriptor
+  simp only [Id.run]
+  have hcopy := copy_eq desc.Annotations [] ha (by intro p _; rfl)
+  simp only [List.forIn_pure_yield_eq_foldl, hcopy, pure_bind, List.nil_append]
+  cases md with
+  | nil =>
+    -- no metadata: the loop does not run (whether or not a copy was made first)
+    simp [GoLite.idPure, GoLite.idBind, GoLite.len, List.forIn_pure_yield_eq_foldl, hcopy]
+  | cons a l =>
+    -- the guard of the allocation, in whichever way it is spelled
+    have g1 : GoLite.len (a :: l) > 0 := by simp [GoLite.len] <;> omega
+    have g2 : ¬ GoLite.len (a :: l) = 0 := by omega
+    have g3 : (GoLite.len (a :: l) != 0) = true := by simp [bne, g2]
+    have g4 : (GoLite.len (a :: l) == 0) = false := by simp [g2]
+    have g5 : ¬ GoLite.len (a :: l) ≤ 0 := by omega
+    simp only [g1, g2, g3, g4, g5, decide_true, decide_false, if_true, if_false, Bool.not_false, Bool.not_true,
+      Bool.false_eq_true, List.forIn_pure_yield_eq_foldl, hcopy, pure_bind, List.nil_append, ne_eq, not_false_eq_true]
+    clear g1 g2 g3 g4 g5
+    generalize a :: l = md at hd ⊢
+    rw [GoLite.forIn_eq_foldE' _ (srcStep false) (absSt desc) (stopSt desc) ?h md _ (desc.Annotations, desc.Annotations) rfl]
+    case h =>
+      intro a t
+      simp only [forIn_anyReturn, pure_bind, srcStep, srcReserved_find, lookup_snd]
+      cases hf : reservedAnnotationPrefixes.find? (fun p => strings.HasPrefix a.1 p) <;>
+        cases hk : hasKey t.1 a.1 <;> first | rfl | simp [hf, hk, GoLite.errorf, GoLite.idPure, GoLite.idBind]
+    have hfold := foldE_own md (desc.Annotations, desc.Annotations) hd
+    cases hres : GoLite.foldE (srcStep false) md (desc.Annotations, desc.Annotations) with
+    | ok t' =>
+      rw [hres] at hfold
+      simp only [] at hfold
+      obtain ⟨h1, h2, h3, h4⟩ := hfold
+      simp [GoLite.idPure, GoLite.idBind, h1, h2, h3, h4]
+    | error e =>
+      obtain ⟨t', u⟩ := e
+      rw [hres] at hfold
+      simp only [] at hfold
+      obtain ⟨h1, h2⟩ := hfold
+      simp [GoLite.idPure, GoLite.idBind, h1, h2]
+
+end Tie
+
+namespace Tie
+open NotationModel.Src NotationModel.Src.«notation»
+
+/-- Go strings as the model's texts -/
+def toAnn (m : SMap) : AnnMap := m.map (fun p => (p.1.toList, p.2.toList))
+
+/-- the translated table is the extracted table (and hence the prefix the property names: `facts_reserved_prefixes`) -/
+theorem reserved_agree : Facts.c11ReservedPrefixes = reservedAnnotationPrefixes.map String.toList := by decide
+
+theorem isReserved_src (k : String) : isReserved k.toList = srcReserved k := by
+  unfold isReserved srcReserved
+  rw [reserved_agree, List.any_map]
+  rfl
+
+theorem beq_toList (a b : String) : (a.toList == b.toList) = (a == b) := by
+  rw [Bool.eq_iff_iff]
+  simp [String.toList_inj]
+
+theorem look_toAnn (anns : SMap) (k : String) : (look k.toList (toAnn anns)).isSome = hasKey anns k := by
+  induction anns with
+  | nil => rfl
+  | cons p anns ih =>
+    have e : toAnn (p :: anns) = (p.1.toList, p.2.toList) :: toAnn anns := rfl
+    unfold hasKey at ih ⊢
+    rw [e]
+    simp only [look, List.any_cons, beq_toList]
+    by_cases h : k = p.1
+    · simp [h]
+    · have hb : (p.1 == k) = false := by simpa using (fun e => h e.symm : ¬ p.1 = k)
+      simp only [beq_iff_eq, h, hb, if_false, Bool.false_or]
+      exact ih
+
+theorem any_reserved_src (md : SMap) :
+    (toAnn md).any (fun kv => isReserved kv.1) = md.any (fun kv => srcReserved kv.1) := by
+  show (md.map _).any _ = _
+  rw [List.any_map]
+  apply any_congr_mem
+  intro x _
+  simp [Function.comp, isReserved_src]
+
+theorem any_collides_src (anns md : SMap) :
+    (toAnn md).any (collidesWith (toAnn anns)) = md.any (fun kv => hasKey anns kv.1) := by
+  show (md.map _).any _ = _
+  rw [List.any_map]
+  apply any_congr_mem
+  intro x _
+  simp [Function.comp, collidesWith, look_toAnn]
+
+theorem distinctKeys_toAnn : ∀ (md : SMap), keysNodup md → distinctKeys (toAnn md) = true := by
+  intro md
+  induction md with
+  | nil => intro _; rfl
+  | cons p md ih =>
+    intro hn
+    unfold keysNodup at hn
+    simp only [List.map_cons, List.nodup_cons, List.mem_map, not_exists, not_and] at hn
+    simp only [toAnn, List.map_cons, distinctKeys, Bool.and_eq_true, Bool.not_eq_true', List.any_map, List.any_eq_false]
+    refine ⟨?_, ih hn.2⟩
+    intro q hq
+    have := hn.1 q hq
+    simp only [Function.comp, beq_toList]
+    simpa using this
+
+theorem look_append (k : Text) : ∀ (a b : AnnMap),
+    look k (a ++ b) = (match look k a with | some v => some v | none => look k b) := by
+  intro a
+  induction a with
+  | nil => intro b; rfl
+  | cons p a ih =>
+    intro b
+    by_cases h : k = p.1 <;> simp [look, h, ih]
+
+theorem look_none_of_no_collision (base : AnnMap) (k v : Text) : ∀ (md : AnnMap),
+    md.any (collidesWith base) = false → look k md = some v → look k base = none := by
+  intro md
+  induction md with
+  | nil => intro _ h; simp [look] at h
+  | cons p md ih =>
+    intro hc hl
+    simp only [List.any_cons, Bool.or_eq_false_iff] at hc
+    by_cases h : k = p.1
+    · have := hc.1
+      simp only [collidesWith, ← h] at this
+      cases hb : look k base with
+      | none => rfl
+      | some w => simp [hb] at this
+    · simp only [look, beq_iff_eq, h, if_false] at hl
+      exact ih hc.2 hl
+
+/-- TIE (translated source): `addUserMetadataToDescriptor`, re-translated from notation.go on every run, against the
+heap model `addUserMetadata` - for EVERY descriptor and metadata map (keys pairwise different, as in any Go map; every
+iteration order), and every heap in which the descriptor's annotation map has these contents:
+(1) the CALLER's annotation map is returned by the translated function exactly as it went in - finding F-C11 cannot
+    come back without breaking this theorem;
+(2) the translated function returns an error exactly when the model refuses;
+(3) when they succeed, the annotations of the returned descriptor and the map the model hands to the signer agree
+    key by key, and media type, digest and size are those of the descriptor passed in. -/
+theorem source_addUserMetadataToDescriptor_refines_model (desc : ocispec.Descriptor) (md : SMap)
+    (hd : keysNodup md) (ha : keysNodup desc.Annotations)
+    (h : Heap) (ann : MapRef) (hv : validRef h ann) (hr : h.read ann = toAnn desc.Annotations) :
+    (addUserMetadataToDescriptor desc md).2.2 = desc.Annotations ∧
+    (addUserMetadataToDescriptor desc md).2.1.isNone = (addUserMetadata h ann (toAnn md)).2.2 ∧
+    ((addUserMetadata h ann (toAnn md)).2.2 = true →
+      (∀ k, look k ((addUserMetadata h ann (toAnn md)).1.read (addUserMetadata h ann (toAnn md)).2.1) =
+        look k (toAnn (addUserMetadataToDescriptor desc md).1.Annotations)) ∧
+      (addUserMetadataToDescriptor desc md).1.MediaType = desc.MediaType ∧
+      (addUserMetadataToDescriptor desc md).1.Digest = desc.Digest ∧
+      (addUserMetadataToDescriptor desc md).1.Size = desc.Size) := by
+  obtain ⟨s1, s2, s3⟩ := source_addUserMetadataToDescriptor_spec desc md hd ha
+  obtain ⟨_, _, m3, m4⟩ := addUserMetadata_spec h ann (toAnn md) hv (distinctKeys_toAnn md hd)
+  rw [hr, any_reserved_src, any_collides_src] at m3
+  have hsame : (addUserMetadataToDescriptor desc md).2.1.isNone = (addUserMetadata h ann (toAnn md)).2.2 := by
+    rw [m3, ← Bool.not_or, ← s2]
+    cases (addUserMetadataToDescriptor desc md).2.1 <;> rfl
+  refine ⟨s1, hsame, ?_⟩
+  intro hok
+  have hnone : (addUserMetadataToDescriptor desc md).2.1 = none := by
+    rw [hok] at hsame
+    simpa using hsame
+  rw [s3 hnone, m4 hok, hr]
+  refine ⟨?_, rfl, rfl, rfl⟩
+  intro k
+  have hnc : (toAnn md).any (collidesWith (toAnn desc.Annotations)) = false := by
+    rw [any_collides_src]
+    rw [hok] at m3
+    simp only [Bool.true_eq, Bool.and_eq_true, Bool.not_eq_true'] at m3
+    exact m3.2
+  have : toAnn (desc.Annotations ++ md) = toAnn desc.Annotations ++ toAnn md := by simp [toAnn]
+  rw [this, look_merged k _ _ (distinctKeys_toAnn md hd), look_append]
+  cases hm : look k (toAnn md) with
+  | none => cases look k (toAnn desc.Annotations) <;> rfl
+  | some v => rw [look_none_of_no_collision _ k v _ hnc hm]
+
+/-- the translated function, run: metadata merged behind the existing annotations, the caller's map returned as it was -/
+example : addUserMetadataToDescriptor { MediaType := "m", Digest := "d", Size := 3, Annotations := [("a", "1")] } [("b", "2")] =
+    ({ MediaType := "m", Digest := "d", Size := 3, Annotations := [("a", "1"), ("b", "2")] }, none, [("a", "1")]) := by decide
+
+example : (addUserMetadataToDescriptor { MediaType := "m", Digest := "d", Size := 3, Annotations := [("a", "1")] }
+    [("b", "2"), ("io.cncf.notary#S256", "x")]).2 = (some (GoLite.errorf ""), [("a", "1")]) := by decide
+
+example : (addUserMetadataToDescriptor { MediaType := "m", Digest := "d", Size := 3, Annotations := [("a", "1")] }
+    [("b", "2"), ("a", "1")]).2 = (some (GoLite.errorf ""), [("a", "1")]) := by decide
+
+end Tie
+
+namespace Tie
+open NotationModel.Src NotationModel.Src.«notation»
+
+/-! #### `generateAnnotations` -/
+
+/-- the hand-copied key constants of `Src/TypesC11.lean` are the values the fact extractor reads from the source -/
+theorem keys_agree : envelope.AnnotationX509ChainThumbprint.toList = Facts.c11ThumbprintKey ∧
+    ocispec.AnnotationCreated.toList = Facts.c11CreatedKey := by decide
+
+/-- SHA-256 (oracle) of each certificate of the chain, hex encoded (oracle), in chain order -/
+def thumbsOf (env : AnnEnv) (si : signature.SignerInfo) : List String :=
+  si.CertificateChain.map (fun c => env.hex (env.sum256 c.Raw))
+
+theorem foldl_snoc {α β : Type} (f : α → β) : ∀ (l : List α) (acc : List β),
+    l.foldl (fun b a => b ++ [f a]) acc = acc ++ l.map f := by
+  intro l
+  induction l with
+  | nil => intro acc; simp
+  | cons a l ih => intro acc; simp [List.foldl, ih]
+
+/-- what `generateAnnotations` returns and what it does to the caller's map, spelled out -/
+def genSpec (env : AnnEnv) (si? : Option signature.SignerInfo) (ann : SMap) (annNil : Bool) : SMap × Option GoLite.Err × SMap :=
+  match si? with
+  | none => ([], some (GoLite.errorf ""), ann)
+  | some si =>
+    match env.marshal (thumbsOf env si) with
+    | .error e => ([], some e, ann)
+    | .ok val =>
+      let a1 := GoLite.Map.set (if annNil then [] else ann) envelope.AnnotationX509ChainThumbprint val
+      match env.signingTime (some si) with
+      | .error e => ([], some e, if annNil then ann else a1)
+      | .ok t =>
+        let a2 := GoLite.Map.set a1 ocispec.AnnotationCreated (t.Format time.RFC3339)
+        (a2, none, if annNil then ann else a2)
+
+/-- TIE (translated source): `generateAnnotations`, re-translated from notation.go on every run, for EVERY signer
+info, plugin annotation map and oracle behaviour: the thumbprint list is built from every certificate of the chain in
+chain order; the thumbprint key and then the created key are written OVER whatever the given annotations hold under
+these keys (a nil map is replaced by an empty one first); nothing else is written; an error returns no map. The third
+component says what happens to the CALLER's map (signer.PluginAnnotations()): it is written in place when it is not
+nil - also when the signing time turns out to be missing after the first write. -/
+theorem source_generateAnnotations_refines_model (env : AnnEnv) (si? : Option signature.SignerInfo) (ann : SMap) (annNil : Bool) :
+    generateAnnotations env si? ann annNil = genSpec env si? ann annNil := by
+  unfold generateAnnotations genSpec
+  simp only [Id.run]
+  cases si? with
+  | none => first | rfl | (cases annNil <;> simp [GoLite.idPure, GoLite.idBind, GoLite.errorf] <;> rfl)
+  | some si =>
+    simp only [Option.isNone_some, Bool.false_eq_true, if_false, GoLite.deref, Option.getD_some]
+    have hth : List.foldl (fun b (a : signature.Cert) => b ++ [env.hex (env.sum256 a.Raw)]) default si.CertificateChain =
+        thumbsOf env si := by
+      rw [foldl_snoc (fun (c : signature.Cert) => env.hex (env.sum256 c.Raw))]
+      first | rfl | simp [thumbsOf]
+    simp only [List.forIn_pure_yield_eq_foldl, pure_bind, hth]
+    unfold AnnEnv.Marshal AnnEnv.SigningTime
+    -- every combination of: nil map or not, marshal fails or not, signing time missing or not
+    cases annNil <;> cases hm : env.marshal (thumbsOf env si) <;> cases ht : env.signingTime (some si) <;>
+      simp [List.forIn_pure_yield_eq_foldl, hth, hm, ht, GoLite.idPure, GoLite.idBind] <;> (try rfl)
+
+/-- `m[k] = v` then `m[s]`, on association lists (generic) -/
+theorem get?_map_set (k v s : String) : ∀ (m : SMap),
+    GoLite.Map.get? (m.map (fun p => if (p.1 == k) = true then (k, v) else p)) s =
+      if s = k then (if hasKey m k then some v else none) else GoLite.Map.get? m s := by
+  intro m
+  induction m with
+  | nil => by_cases h : s = k <;> simp [GoLite.Map.get?, hasKey, h]
+  | cons p m ih =>
+    unfold GoLite.Map.get? at ih ⊢
+    by_cases hp : p.1 = k
+    · by_cases hs : s = k
+      · simp [hp, hs, hasKey, List.find?]
+      · have hks : (k == s) = false := by simpa using (fun e => hs e.symm : ¬ k = s)
+        simp only [List.map_cons, hp, beq_self_eq_true, if_true, List.find?, hks, hs, if_false]
+        rw [ih]; simp [hs]
+    · have hpk : (p.1 == k) = false := by simpa using hp
+      by_cases hps : p.1 = s
+      · have hsk : ¬ s = k := by rw [← hps]; exact hp
+        simp [List.find?, hpk, hps, hsk]
+      · have hpsb : (p.1 == s) = false := by simpa using hps
+        simp only [List.map_cons, hpk, Bool.false_eq_true, if_false, List.find?, hpsb]
+        rw [ih]
+        simp only [hasKey, List.any_cons, hpk, Bool.false_or] <;> rfl
+
+theorem get?_set (m : SMap) (k v s : String) :
+    GoLite.Map.get? (GoLite.Map.set m k v) s = if s = k then some v else GoLite.Map.get? m s := by
+  unfold GoLite.Map.set
+  by_cases hany : m.any (fun p => p.1 == k) = true
+  · simp only [hany, if_true]
+    rw [get?_map_set]
+    simp [hasKey, hany]
+  · have hany' : m.any (fun p => p.1 == k) = false := by
+      cases hb : m.any (fun p => p.1 == k) with
+      | false => rfl
+      | true => exact absurd hb hany
+    simp only [hany', Bool.false_eq_true, if_false]
+    unfold GoLite.Map.get?
+    rw [List.find?_append]
+    by_cases hs : s = k
+    · have hnone : m.find? (fun p => p.1 == s) = none := by
+        rw [hs, List.find?_eq_none]
+        intro q hq
+        have := hany'
+        simp only [List.any_eq_false] at this
+        simpa using this q hq
+      rw [hnone]
+      simp [hs, List.find?]
+    · have hks : (k == s) = false := by simpa using (fun e => hs e.symm : ¬ k = s)
+      cases hf : m.find? (fun p => p.1 == s) <;> simp [hs, hks, List.find?]
+
+theorem look_toAnn_get? (s : String) : ∀ (m : SMap), look s.toList (toAnn m) = (GoLite.Map.get? m s).map String.toList := by
+  intro m
+  induction m with
+  | nil => rfl
+  | cons p m ih =>
+    have e : toAnn (p :: m) = (p.1.toList, p.2.toList) :: toAnn m := rfl
+    rw [e]
+    unfold GoLite.Map.get? at ih ⊢
+    simp only [look, beq_toList, List.find?]
+    by_cases h : s = p.1
+    · simp [h]
+    · have hb : (p.1 == s) = false := by simpa using (fun e => h e.symm : ¬ p.1 = s)
+      simp only [beq_iff_eq, h, if_false, hb]
+      exact ih
+
+theorem look_toAnn_set (k v : String) (k' : Text) (m : SMap) :
+    look k' (toAnn (GoLite.Map.set m k v)) = if k' = k.toList then some v.toList else look k' (toAnn m) := by
+  have hk' : k' = (String.ofList k').toList := by simp
+  generalize String.ofList k' = s at hk'
+  subst hk'
+  rw [look_toAnn_get?, look_toAnn_get?, get?_set]
+  by_cases h : s = k
+  · simp [h]
+  · have : ¬ s.toList = k.toList := fun e => h (String.toList_inj.1 e)
+    simp [h, this]
+
+/-- ... and against the model's `expectedPushAnn`: when the oracles deliver the texts the model computes (the JSON
+array of the chain's thumbprints, the RFC 3339 signing time) and the given annotations are the signer's plugin
+annotations, the translated function returns, key by key, exactly the annotations the model pushes. -/
+theorem source_generateAnnotations_matches_model (i : Input) (env : AnnEnv) (si : signature.SignerInfo) (ann : SMap)
+    (annNil : Bool) (val : String) (t : time.Time)
+    (hbase : toAnn (if annNil then [] else ann) = i.signer.pluginAnn)
+    (hm : env.marshal (thumbsOf env si) = .ok val) (hval : val.toList = jsonArray i.signer.thumbs)
+    (ht : env.signingTime (some si) = .ok t) (hf : (t.Format time.RFC3339).toList = rfc3339 i.signer.time) :
+    (generateAnnotations env (some si) ann annNil).2.1 = none ∧
+    ∀ k, look k (toAnn (generateAnnotations env (some si) ann annNil).1) = look k (expectedPushAnn i) := by
+  rw [source_generateAnnotations_refines_model]
+  simp only [genSpec, hm, ht]
+  refine ⟨by first | rfl | simp, ?_⟩
+  intro k
+  simp only [look_toAnn_set, hbase, expectedPushAnn, look_put, keys_agree.1, keys_agree.2, hval, hf]
+
+def exEnv : AnnEnv :=
+  { sum256 := fun b => b, hex := fun b => String.ofList (b.map (fun n => Char.ofNat (97 + n))), marshal := fun l => .ok (String.intercalate "," l),
+    signingTime := fun _ => .ok ⟨0, fun _ => "T"⟩ }
+
+example : generateAnnotations exEnv (some { CertificateChain := [⟨[0, 1]⟩, ⟨[2]⟩] })
+    [("org.opencontainers.image.created", "forged"), ("p", "q")] false =
+    ([("org.opencontainers.image.created", "T"), ("p", "q"), ("io.cncf.notary.x509chain.thumbprint#S256", "ab,c")], none,
+     [("org.opencontainers.image.created", "T"), ("p", "q"), ("io.cncf.notary.x509chain.thumbprint#S256", "ab,c")]) := by decide
+
+end Tie
 
 end NotationModel.C11
